@@ -177,7 +177,7 @@ func (propC08) Level() string  { return "exploration" }
 func (propC08) NewParams() any { return &AnimParams{} }
 func (propC08) Plan(tier string) (int, int) {
 	if tier == "thorough" {
-		return 120000, 0
+		return 1000000, 0
 	}
 	return 8000, 0
 }
@@ -270,7 +270,7 @@ func (propC18) Level() string  { return "exploration" }
 func (propC18) NewParams() any { return &AnimParams{} }
 func (propC18) Plan(tier string) (int, int) {
 	if tier == "thorough" {
-		return 120000, 0
+		return 600000, 0
 	}
 	return 8000, 0
 }
